@@ -502,6 +502,12 @@ func (c *Ctx) fstreeSafePath(fn *ssa.Function, v ssa.Value, depth int) (bool, st
 	}
 	for _, l := range c.Leaves(v) {
 		switch x := l.(type) {
+		case *ssa.Const:
+			// the empty path (the zero value a helper returns next to its error) names nothing: every sink fails on it
+			if s, ok := constStrVal(x); ok && s == "" {
+				continue
+			}
+			return false, leafDesc(l)
 		case *ssa.Extract:
 			if _, ok := isCallTo(x, "database/storage/fstree.FSTree.buildFilePath"); ok && x.Index == 0 {
 				continue
